@@ -151,7 +151,7 @@ def classify_event(binary, world, variant, flavour, line):
     if kv.get("call") == "-2":
         op = "new/delete (object life cycle)"
     pc = int(kv.get("pc", 0))
-    fn, loc = symbolize(binary, [pc])[pc]
+    fn, loc = symbolize(binary, [pc])[pc] if pc else ("(outside the main image: libc/runtime)", "?")
     extra = {"fn": fn, "loc": loc, "call": int(kv.get("call", -1)), "raw": " ".join(tok[3:])}
     if what == "SIMRT-DEADLOCK":
         return Finding(world, variant, flavour, run, seed, "deadlock", "?", "all live tasks blocked on wrapped primitives", extra)
